@@ -26,7 +26,7 @@ const hostAlphabet = "a1-./{}"
 
 type limits struct{ params, key int }
 
-var noLimit = limits{1 << 16, 1 << 16}
+var noLimit = limits{65535, 65535} // the documented defaults (math.MaxUint16)
 
 func newRouter(l limits) *fox.Router {
 	var opts []fox.GlobalOption
@@ -78,6 +78,29 @@ func main() {
 	run.SetExtra("exhaustive_subspace", fmt.Sprintf("all strings over %q up to length %d with default limits, and up to length %d for each of 9 (max params in 0..2) x (max key bytes in 1..3) limit pairs: enumerated completely; plus all strings over the hostname-focused alphabet %q up to length %d", alphabet, maxLen, small, hostAlphabet, run.Pick(6, 8)))
 	random(run)
 	edges(run)
+	tokens(run)
+}
+
+// tokens enumerates every concatenation of up to n grammar tokens (longer strings than the byte-level enumeration
+// reaches, where the structure - which token follows which - is what matters).
+func tokens(run *kit.Run) {
+	toks := []string{"/", "a", ".", "{a}", "{b}", "{}", "*{a}", "*{}", "*", "{", "}"}
+	n := run.Pick(5, 6)
+	run.Parallel(len(toks)*len(toks), func(b int) {
+		f := newRouter(noLimit)
+		var rec func(s string, k int)
+		rec = func(s string, k int) {
+			one(run, f, noLimit, s)
+			if k == n {
+				return
+			}
+			for _, t := range toks {
+				rec(s+t, k+1)
+			}
+		}
+		rec(toks[b/len(toks)]+toks[b%len(toks)], 2)
+	})
+	run.SetExtra("token_subspace", fmt.Sprintf("every concatenation of 2..%d tokens out of %q: enumerated completely", n, toks))
 }
 
 func exhaustive(run *kit.Run, l limits, maxLen int) {
@@ -183,7 +206,9 @@ func edges(run *kit.Run) {
 		return strings.Join(parts, ".")
 	}
 	for _, p := range []string{lab(63) + ".com/", lab(64) + ".com/", "a." + lab(63) + "/", "a." + lab(64) + "/", host(255) + "/", host(253) + "/", host(256) + "/x", host(257) + "/",
-		lab(63) + "{p}.com/", "{p}." + lab(64) + "/", "/" + strings.Repeat("{a}/", 40), "/" + strings.Repeat("x", 5000), "/{" + strings.Repeat("n", 70000) + "}"} {
+		lab(63) + "{p}.com/", "{p}." + lab(64) + "/", lab(64) + "{p}.com/", "x." + lab(64) + "{p}/foo", lab(32) + "{p}" + lab(32) + ".com/", lab(31) + "{p}" + lab(32) + ".com/", "{p}" + lab(64) + ".com/", "{p}" + lab(63) + ".com/",
+		lab(40) + "{p}" + lab(10) + "{q}" + lab(14) + ".com/", lab(40) + "{p}" + lab(10) + "{q}" + lab(13) + ".com/", host(200) + ".{p}." + lab(64) + "/", host(190) + "." + lab(64) + "{p}/",
+		"/" + strings.Repeat("{a}/", 65535), "/" + strings.Repeat("{a}/", 65536), strings.Repeat("{a}.", 120) + "com/" + strings.Repeat("{a}/", 65500), "/" + strings.Repeat("{a}/", 40), "/" + strings.Repeat("x", 5000), "/{" + strings.Repeat("n", 70000) + "}"} {
 		one(run, f, noLimit, p)
 		run.Count("hostname_length_edge_cases", 1)
 	}
@@ -200,6 +225,9 @@ func one(run *kit.Run, f *fox.Router, l limits, p string) {
 		rep = map[string]any{"pattern": p}
 	}
 	key := fmt.Sprintf("%q|%d|%d", p, l.params, l.key)
+	if len(p) > 400 {
+		key = fmt.Sprintf("%q...(%d bytes, %d wildcards)|%d|%d", p[:80], len(p), strings.Count(p, "{"), l.params, l.key)
+	}
 	run.Case(key, hasDelims(p))
 	var rte *fox.Route
 	var err error
@@ -240,6 +268,13 @@ func one(run *kit.Run, f *fox.Router, l limits, p string) {
 		return
 	}
 	run.Count("accepted", 1)
+	if len(p) > 20000 {
+		// length-limit edge cases: only the accept/reject decision and ParamsLen are checked
+		if want := len(ref.Tokenize(p).Wildcards()); rte.ParamsLen() != want {
+			run.Violate("paramslen|"+key, fmt.Sprintf("accepted pattern of %d bytes: ParamsLen()=%d but it declares %d wildcards", len(p), rte.ParamsLen(), want), rep)
+		}
+		return
+	}
 	routable(run, l, p, rte, key, rep)
 }
 
